@@ -33,30 +33,7 @@ def run(ctx):
     PC.run_posctl(ctx, "E7.unchecked", "unchecked")
     # 2. classification + guards
     ws, rs = C.check_byte_codecs(ctx, P, rule="E9.readers")
-    for ty in ("PublicKey", "MultiPublicKey", "ProofOfPossession"):
-        f = rs.get(ty)
-        if f is None:
-            ctx.ob("E4.len.anchor", ty, False, "raw point reader of `%s` not found" % ty)
-            continue
-        ev = evaluate(f)
-        fb = [s for s in ev.sites.values() if s.callee[0] == "GroupEncoding::from_bytes"]
-        ok = len(fb) == 1
-        if ok:
-            lits = G.path_literals(ev, fb[0].bb, P)
-            eq = False
-            for atom, pol in lits:
-                if atom[0] == "atom" and atom[1] == "cmp":
-                    op = atom[2] if pol else R._NEG[atom[2]]
-                    sides = (atom[3], atom[4])
-                    has_in = any(R._is_len_of(x, "value") for x in sides)
-                    has_repr = any(any(t.op == "call" and B.cname(t) == "GroupEncoding::to_bytes" for t in subterms(x)) for x in sides)
-                    if op == "Eq" and has_in and has_repr:
-                        eq = True
-            # the decoded buffer is the input copied into the representation
-            arg = strip_sites(fb[0].args[0])
-            copied = any(t.op == "mutcall" and B.cname(t) == "slice::<impl [T]>::copy_from_slice" and any(x.op == "param" and x.a[1] == "value" for x in subterms(t)) for t in subterms(arg))
-            ok = eq and copied
-        ctx.ob("E4.len", ty, ok, "%s::try_from: checked from_bytes under len(value) == len(representation), on the input bytes themselves" % ty, where=where(f))
+    check_point_reader_exact_len(ctx, P, rs, ("PublicKey", "MultiPublicKey", "ProofOfPossession"))
     for ty in ("SecretKey", "ProofCommitmentSecret", "ProofCommitmentChallenge"):
         f = rs.get(ty)
         if f is None:
@@ -133,3 +110,32 @@ def run(ctx):
                             direct.append((fn, bb))
     ctx.ob("E7.shares", "direct-array-access", not direct, "no function outside the container's impls reads the raw byte array of a point share: %s" % [f.key for f, b in direct][:4], where=where(*direct[0]) if direct else None)
     ctx.assume("GroupEncoding::from_bytes of both backends rejects points off the curve or outside the prime-order subgroup; vsss-rs Share::as_group_element / combine_shares_group end in GroupEncoding::from_bytes (dependency contracts, blstrs_plus 0.8.18 / bls12_381_plus 0.8.18 / vsss-rs 4.3.8)")
+
+
+def check_point_reader_exact_len(ctx, P, rs, types):
+    """Raw point readers decode under len(input) == len(representation), on the input bytes themselves (a reader that
+    takes a prefix accepts over-long input: trailing bytes, two values glued together)."""
+    for ty in types:
+        f = rs.get(ty)
+        if f is None:
+            ctx.ob("E4.len.anchor", ty, False, "raw point reader of `%s` not found" % ty)
+            continue
+        ev = evaluate(f)
+        fb = [s for s in ev.sites.values() if s.callee[0] == "GroupEncoding::from_bytes"]
+        ok = len(fb) == 1
+        if ok:
+            lits = G.path_literals(ev, fb[0].bb, P)
+            eq = False
+            for atom, pol in lits:
+                if atom[0] == "atom" and atom[1] == "cmp":
+                    op = atom[2] if pol else R._NEG[atom[2]]
+                    sides = (atom[3], atom[4])
+                    has_in = any(R._is_len_of(x, "value") for x in sides)
+                    has_repr = any(any(t.op == "call" and B.cname(t) == "GroupEncoding::to_bytes" for t in subterms(x)) for x in sides)
+                    if op == "Eq" and has_in and has_repr:
+                        eq = True
+            # the decoded buffer is the input copied into the representation
+            arg = strip_sites(fb[0].args[0])
+            copied = any(t.op == "mutcall" and B.cname(t) == "slice::<impl [T]>::copy_from_slice" and any(x.op == "param" and x.a[1] == "value" for x in subterms(t)) for t in subterms(arg))
+            ok = eq and copied
+        ctx.ob("E4.len", ty, ok, "%s::try_from: checked from_bytes under len(value) == len(representation), on the input bytes themselves" % ty, where=where(f))
